@@ -42,12 +42,12 @@ func vwellformed(r Dnum) bool {
 // of the larger operand, or of the result when a carry gives the result a larger exponent.
 // Exponents are kept away from the int8 limits (overflow/underflow: VerifC27AddLimits).
 //
-//symgo:harness prop=C27 tier=quick arith=int shards=16 timeout=400 ttimeout=1700 qtimeout=20000 bounds=all_16-digit_coefficients;both_signs;exponents_-100..100;exponent_difference_in_{0,1,2,8,15,16}_and_>=17_(thorough:_every_0..16);add_and_sub outside=float_conversions
+//symgo:harness prop=C27 tier=quick arith=int shards=16 timeout=400 ttimeout=1700 qtimeout=20000 bounds=all_16-digit_coefficients;both_signs;exponents_-100..100;exponent_difference_in_{0,1,15,16}_and_>=17_(thorough:_every_0..16);add_and_sub outside=float_conversions
 func VerifC27Add() {
 	d := rt.Pick("d", 18)
 	if !rt.Thorough() {
 		// quick tier: a spread of exponent differences (thorough: every one)
-		ds := []int{0, 1, 2, 8, 15, 16, 17}
+		ds := []int{0, 1, 15, 16, 17}
 		if d >= len(ds) {
 			rt.Assume(false)
 		}
@@ -142,10 +142,16 @@ func VerifC27AddLimits() {
 // C27 mul: for all finite operands, |Mul(x,y) - x*y| <= one unit in the 16th digit of the
 // result; exponent overflow gives infinity of the right sign, underflow gives zero.
 //
-//symgo:harness prop=C27 tier=quick arith=int shards=8 timeout=900 qtimeout=60000 bounds=all_16-digit_coefficient_pairs;both_signs;all_exponents
+//symgo:harness prop=C27 tier=quick arith=int shards=8 timeout=900 qtimeout=60000 bounds=all_16-digit_coefficient_pairs;exponents_-60..60_and_y_positive_(thorough:_all_exponents,_both_signs)
 func VerifC27Mul() {
-	x := vfinite("x", -128, 127)
-	y := vfinite("y", -128, 127)
+	var x, y Dnum
+	if rt.Thorough() {
+		x, y = vfinite("x", -128, 127), vfinite("y", -128, 127)
+	} else {
+		// quick tier: no exponent overflow/underflow (that is VerifC27MulLimits), y positive
+		x = vfinite("x", -60, 60)
+		y = Dnum{rt.U64Range("y_coef", coefMin, coefMax), signPos, int8(rt.IntRange("y_exp", -60, 60))}
+	}
 	r := Mul(x, y)
 	rt.Reach("multiplied")
 	rt.Observe("rcoef", r.coef)
@@ -168,6 +174,33 @@ func VerifC27Mul() {
 	rt.Assert("mul/scale", j == 15 || j == 16)
 	diff := rt.ZU(r.coef).MulPow10(j).Sub(p)
 	rt.Assert("mul/1ulp", diff.Abs().Le(rt.ZI(1).MulPow10(j)))
+}
+
+// C27 mul at the exponent limits: with concrete coefficients the exponent arithmetic alone decides
+// overflow to infinity / underflow to zero.
+//
+//symgo:harness prop=C27 tier=quick arith=int timeout=300 bounds=coefficients_in_{1000000000000000,3162277660168379,3162277660168380,9999999999999999};all_exponent_pairs;both_signs
+func VerifC27MulLimits() {
+	cs := []uint64{1000000000000000, 3162277660168379, 3162277660168380, 9999999999999999}
+	x := Dnum{cs[rt.Pick("xc", 4)], int8(1 - 2*rt.Pick("xneg", 2)), int8(rt.IntRange("xe", -128, 127))}
+	y := Dnum{cs[rt.Pick("yc", 4)], 1, int8(rt.IntRange("ye", -128, 127))}
+	r := Mul(x, y)
+	rt.Reach("multiplied")
+	e := int(x.exp) + int(y.exp)
+	// exact product has exponent e or e-1 (when the coefficient product is below 1e31)
+	small := rt.ZU(x.coef).Mul(rt.ZU(y.coef)).Lt(rt.ZI(1).MulPow10(31))
+	re := e
+	if small {
+		re = e - 1
+	}
+	switch {
+	case re > expMax:
+		rt.Assert("mul/overflow-inf", r == Inf(x.sign))
+	case re < expMin:
+		rt.Assert("mul/underflow-zero", r == Zero)
+	default:
+		rt.Assert("mul/in-range-finite", r.sign == x.sign && (int(r.exp) == re || int(r.exp) == re+1))
+	}
 }
 
 // vsumDiv128 is the assumed contract of div128 used by VerifC27DivCases (the arithmetic of
